@@ -54,6 +54,7 @@ pub struct Ctx {
     pub stubs: Vec<String>,
     pub t0: Instant,
     pub solver_ms: f64,
+    pub retries: usize,
     pub traces_validated: usize,
     pub notes: Vec<String>,
     pub quiet: bool,
@@ -110,6 +111,7 @@ pub fn init(prop: &str, tier: Tier, seed: u64) {
         ],
         t0: Instant::now(),
         solver_ms: 0.0,
+        retries: 0,
         traces_validated: 0,
         notes: vec![],
         quiet: std::env::var("VX_VERBOSE").is_err(),
@@ -194,6 +196,21 @@ pub fn model_checks(asserts: &[F], m: &HashMap<String, String>) -> bool {
     sx::eval_with(&mm, asserts).iter().all(|b| *b)
 }
 
+/// One solver call; when the answer is `unknown` because the (wall-clock) limit ran out and the limit is the tier's default,
+/// the query is repeated once with five times the limit: a loaded machine must not turn a 2-second proof into an
+/// inconclusive check.  Documentation queries with a deliberately short limit (`with_timeout`) are not repeated.
+fn check_retry(name: &str, asserts: &[F], to: u64, want_model: bool) -> solver::QueryStat {
+    let st = ctx(|c| c.solvers.check(name, asserts, to, want_model));
+    let deliberate = TIMEOUT_OVERRIDE.with(|t| t.get()).is_some();
+    if matches!(st.answer, Answer::Unknown(_)) && !deliberate && st.ms >= 0.8 * to as f64 {
+        ctx(|c| c.retries += 1);
+        let mut st2 = ctx(|c| c.solvers.check(&format!("{} [retry, {} s limit]", name, 5 * to / 1000), asserts, 5 * to, want_model));
+        st2.ms += st.ms;
+        return st2;
+    }
+    st
+}
+
 /// VALID: do `hyps` imply `goal` for every assignment?  (unsat of hyps ∧ ¬goal)
 pub fn valid(name: &str, hyps: &[F], goal: &F) -> Tri {
     if *goal == F::True {
@@ -255,7 +272,7 @@ pub fn valid(name: &str, hyps: &[F], goal: &F) -> Tri {
         }
     }
     let t_dbg = Instant::now();
-    let st = ctx(|c| c.solvers.check(name, &asserts, to, true));
+    let st = check_retry(name, &asserts, to, true);
     if std::env::var("VX_TIMING").is_ok() {
         eprintln!("    valid(): solver call took {:?} (reported {:.1} ms)", t_dbg.elapsed(), st.ms);
     }
@@ -418,7 +435,7 @@ pub fn witness(name: &str, hyps: &[F], extra: &F) -> Tri {
             }
         };
     }
-    let st = ctx(|c| c.solvers.check(name, &all, to, true));
+    let st = check_retry(name, &all, to, true);
     match &st.answer {
         Answer::Sat(_) => {
             record(name, "WITNESS", "held", &st);
@@ -447,7 +464,7 @@ pub fn satisfiable_opt(name: &str, kind: &'static str, hyps: &[F], extra: &F, fa
     let mut asserts = if gv.is_empty() { hyps.to_vec() } else { solver::slice(hyps, &gv) };
     asserts.push(extra.clone());
     let to = timeout_ms();
-    let st = ctx(|c| c.solvers.check(name, &asserts, to, true));
+    let st = if fatal { check_retry(name, &asserts, to, true) } else { ctx(|c| c.solvers.check(name, &asserts, to, true)) };
     if let Some(d) = cross_disagrees(&st) {
         record(name, kind, "inconclusive", &st);
         ctx(|c| c.inconclusive.push(format!("{}: solver disagreement: {}", name, d)));
@@ -534,11 +551,28 @@ pub fn sample(v: Value) {
 }
 /// call at the end of every executed path
 pub fn path_done() {
-    let (d, h) = sx::with(|a| (a.decisions.len(), a.hashes.len()));
+    let (d, h, um, mis) = sx::with(|a| {
+        let r = (a.decisions.len(), a.hashes.len(), a.unmodelled_words, a.misaligned_pairs);
+        a.unmodelled_words = 0;
+        a.misaligned_pairs = 0;
+        r
+    });
     ctx(|c| {
         c.paths += 1;
         c.decisions += d;
         c.hashes += h;
+        if um > 0 {
+            let m = format!("{} word(s) handed to Scalar::from_raw contain pieces of a 256-bit blob image that are not an 8-byte window of it: the stand-in cannot follow this byte manipulation", um);
+            if !c.inconclusive.contains(&m) {
+                c.inconclusive.push(m);
+            }
+        }
+        if mis > 0 {
+            let m = "some transcript pairs of equal length had differently aligned items and were treated as unequal (ideal-hash axiom not instantiated for them)".to_string();
+            if !c.notes.contains(&m) {
+                c.notes.push(m);
+            }
+        }
     })
 }
 pub fn functions(fs: &[&str]) {
